@@ -39,6 +39,13 @@ type traceEvent struct {
 
 func reg(name string, f intrinsic) { intrinsics[name] = f }
 
+// fallthroughs: models that may decline (return fallThroughT{}), in which case the real function body runs
+type fallThroughT struct{}
+
+var fallthroughs = map[string]intrinsic{}
+
+func regFallthrough(name string, f intrinsic) { fallthroughs[name] = f }
+
 func zeroResult(fn *ssa.Function) value {
 	res := fn.Signature.Results()
 	if res.Len() == 0 {
